@@ -272,7 +272,8 @@ func runC11(w *World) *Result {
 	r.NotDecided = "equality with a reference scanner over all character sequences (needs execution); multi-character escapes such as \\x41 / \\u00e9 are rejected by the pair-wise escape decoder (recorded finding)."
 	r.Rule("R-C11-table", "punctuation table: longer-before-prefix; parser-tested token types are producible", 10)
 	r.Rule("R-C11-regex", "probes: anchored; identifier-like probes end in \\b; terminated comment probe non-greedy", 5)
-	r.Rule("R-C11-bytes", "no uint8→string conversion in the lexer", 1)
+	r.Rule("R-C11-bytes", "no uint8→string conversion in the lexer; the one-character accessor returns the character at every position below the length", 2)
+	CharAccessRule(w, r, "R-C11-bytes")
 	r.Rule("R-C11-pos", "arms that can consume \\n assign the row counter, and compute every position update from the consumed source text (not the decoded value)", 5)
 	r.Rule("R-C11-errors", "unterminated string and unknown character end in an error exit", 2)
 	r.Rule("R-C11-escapes", "escape sequences are decoded for their full length", 1)
@@ -746,6 +747,7 @@ func runC12(w *World) *Result {
 	}
 	c12Pos(w, r)
 	c12Newlines(w, r)
+	c12EOF(w, r)
 	SignRule(w, r, "R-C12-sign")
 	return r
 }
@@ -1523,6 +1525,343 @@ func SignRule(w *World, r *Result, rule string) {
 			r.Ok(rule, key, w.Pos(re.Pos), "probe starting with "+strings.Join(overlap, ",")+" is conditioned on the previous token")
 		} else {
 			r.Bad(rule, key, w.Pos(re.Pos), "probe "+fmt.Sprintf("%q", re.Pattern)+" can start with "+strings.Join(overlap, ",")+" which is also punctuation, and is tried regardless of the previous token: a-1 lexes as a, -1 (rejected) while a - 1 lexes as a, -, 1 — acceptance depends on blanks")
+		}
+	}
+}
+
+// CharAccessRule: the lexer's one-character accessor (a function returning s[p:p+1] of its
+// string parameter) yields the character for every p < len(s) and "" otherwise. A stricter
+// bound loses the last character of the input; a laxer one panics.
+func CharAccessRule(w *World, r *Result, rule string) {
+	n := 0
+	for _, fn := range w.Funcs("lexer") {
+		for _, b := range fn.Blocks {
+			for _, ins := range b.Instrs {
+				sl, ok := ins.(*ssa.Slice)
+				if !ok || sl.Low == nil || sl.High == nil {
+					continue
+				}
+				p, ok := sl.X.(*ssa.Parameter)
+				if !ok || !isString(p.Type()) {
+					continue
+				}
+				hi, ok := sl.High.(*ssa.BinOp)
+				if !ok || hi.Op != token.ADD || hi.X != sl.Low {
+					continue
+				}
+				if k, ok := hi.Y.(*ssa.Const); !ok || k.Value == nil || k.Int64() != 1 {
+					continue
+				}
+				n++
+				key := "char:" + FuncName(fn)
+				isLen := func(v ssa.Value) bool {
+					c, ok := v.(*ssa.Call)
+					if !ok {
+						return false
+					}
+					bi, ok := c.Call.Value.(*ssa.Builtin)
+					return ok && bi.Name() == "len" && len(c.Call.Args) == 1 && c.Call.Args[0] == p
+				}
+				verdict, detail := "", ""
+				for d := b; d != nil; d = d.Idom() {
+					par := d.Idom()
+					if par == nil {
+						break
+					}
+					c, neg := condOf(par)
+					bo, ok := c.(*ssa.BinOp)
+					if !ok {
+						continue
+					}
+					onTrue := par.Succs[0].Dominates(b) && len(par.Succs[0].Preds) == 1
+					onFalse := par.Succs[1].Dominates(b) && len(par.Succs[1].Preds) == 1
+					if !onTrue && !onFalse {
+						continue
+					}
+					holds := onTrue != neg // the comparison itself holds on the path to the slice
+					op, x, y := bo.Op, bo.X, bo.Y
+					if !holds {
+						switch op {
+						case token.LSS:
+							op = token.GEQ
+						case token.LEQ:
+							op = token.GTR
+						case token.GTR:
+							op = token.LEQ
+						case token.GEQ:
+							op = token.LSS
+						default:
+							continue
+						}
+					}
+					// normalise to  a OP len(s)
+					if isLen(x) {
+						x, y = y, x
+						switch op {
+						case token.LSS:
+							op = token.GTR
+						case token.LEQ:
+							op = token.GEQ
+						case token.GTR:
+							op = token.LSS
+						case token.GEQ:
+							op = token.LEQ
+						}
+					}
+					if !isLen(y) {
+						continue
+					}
+					switch {
+					case op == token.LSS && x == sl.Low, op == token.LEQ && x == sl.High:
+						verdict, detail = "ok", "guard is exactly position < len(s)"
+					case op == token.LSS && x == sl.High:
+						verdict, detail = "bad", "the guard is position+1 < len(s): the last character of the input is never returned (a file that does not end in a newline loses its final byte)"
+					case op == token.LEQ && x == sl.Low:
+						verdict, detail = "bad", "the guard is position <= len(s): position == len(s) slices past the end (panic)"
+					}
+					if verdict != "" {
+						break
+					}
+				}
+				switch verdict {
+				case "ok":
+					r.Ok(rule, key, w.Pos(sl.Pos()), "s[p:p+1] under "+detail)
+				case "bad":
+					r.Bad(rule, key, w.Pos(sl.Pos()), detail)
+				default:
+					r.Bad(rule, key, w.Pos(sl.Pos()), "cannot find the bound that guards s[p:p+1]")
+				}
+			}
+		}
+	}
+	if n == 0 {
+		r.Bad(rule, "char:none", "-", "no one-character accessor found in the lexer")
+	}
+}
+
+// ClassTestRule: a regular expression applied with MatchString to one character of the
+// input (the result of the character accessor, "" at the end of the input) must not accept
+// the empty string: a scanning loop that continues while the test succeeds would never
+// leave at the end of the input.
+func ClassTestRule(w *World, r *Result, rule string) {
+	lf, err := BuildLexFacts(w)
+	if err != nil {
+		r.Bad(rule, "lexclass:facts", "-", err.Error())
+		return
+	}
+	n := 0
+	for _, re := range lf.Regexes {
+		if re.Method != "MatchString" {
+			continue
+		}
+		n++
+		key := fmt.Sprintf("lexclass:#%d", n)
+		if re.Tree == nil {
+			r.Bad(rule, key, w.Pos(re.Pos), "regular expression cannot be parsed or is not constant")
+			continue
+		}
+		if regexNullable(re.Tree) {
+			r.Bad(rule, key, w.Pos(re.Pos), fmt.Sprintf("the character test %q also succeeds on the empty string, which is what the scanner sees at the end of the input: the loop it controls never ends when a file ends inside such a lexeme", re.Pattern))
+		} else {
+			r.Ok(rule, key, w.Pos(re.Pos), fmt.Sprintf("character test %q fails on the empty string (end of input leaves the loop)", re.Pattern))
+		}
+	}
+	if n == 0 {
+		r.Bad(rule, "lexclass:none", "-", "no character-class test found in the lexer")
+	}
+}
+
+// regexNullable: can the expression match the empty string (anywhere, i.e. unanchored search)?
+func regexNullable(t *syntax.Regexp) bool {
+	switch t.Op {
+	case syntax.OpEmptyMatch, syntax.OpBeginLine, syntax.OpEndLine, syntax.OpBeginText, syntax.OpEndText, syntax.OpWordBoundary, syntax.OpNoWordBoundary:
+		return true
+	case syntax.OpStar, syntax.OpQuest:
+		return true
+	case syntax.OpRepeat:
+		return t.Min == 0 || regexNullable(t.Sub[0])
+	case syntax.OpPlus, syntax.OpCapture:
+		return regexNullable(t.Sub[0])
+	case syntax.OpConcat:
+		for _, s := range t.Sub {
+			if !regexNullable(s) {
+				return false
+			}
+		}
+		return true
+	case syntax.OpAlternate:
+		for _, s := range t.Sub {
+			if regexNullable(s) {
+				return true
+			}
+		}
+		return false
+	case syntax.OpLiteral:
+		return len(t.Rune) == 0
+	}
+	return false
+}
+
+// c12EOF: where the parser looks at the type of the next token and takes NEWLINE to mean
+// "nothing more belongs to this construct", the other side of that test must not go
+// straight on to parse more input: the last line of a file need not end in a newline, so
+// the end-of-input token has to be tested as well before anything is parsed.
+func c12EOF(w *World, r *Result) {
+	rule := "R-C12-nl"
+	lf, err := BuildLexFacts(w)
+	if err != nil {
+		return
+	}
+	if _, ok := lf.TokenTypes["EOF"]; !ok {
+		return
+	}
+	consumesMemo := map[*ssa.Function]int{}
+	var consumes func(fn *ssa.Function, depth int) bool
+	consumes = func(fn *ssa.Function, depth int) bool {
+		if fn == nil || fn.Blocks == nil || depth > 12 {
+			return false
+		}
+		if v, ok := consumesMemo[fn]; ok {
+			return v == 1
+		}
+		consumesMemo[fn] = 0
+		res := false
+		for _, b := range fn.Blocks {
+			for _, ins := range b.Instrs {
+				if c, ok := ins.(ssa.CallInstruction); ok {
+					if callee := c.Common().StaticCallee(); callee != nil && pkgOf(callee) == w.Pkgs["parser"].Types {
+						if callee.Name() == "eat" || consumes(callee, depth+1) {
+							res = true
+						}
+					}
+				}
+			}
+		}
+		if res {
+			consumesMemo[fn] = 1
+		}
+		return res
+	}
+	mentions := func(cond ssa.Value, tv ssa.Value) bool {
+		found := false
+		var walk func(v ssa.Value, d int)
+		walk = func(v ssa.Value, d int) {
+			if v == nil || d > 4 || found {
+				return
+			}
+			if v == tv {
+				found = true
+				return
+			}
+			if t1, ok := typeCallToken(w, v); ok {
+				if t0, ok := typeCallToken(w, tv); ok && t0 == t1 {
+					found = true
+					return
+				}
+			}
+			switch x := v.(type) {
+			case *ssa.BinOp:
+				walk(x.X, d+1)
+				walk(x.Y, d+1)
+			case *ssa.UnOp:
+				walk(x.X, d+1)
+			case *ssa.Call:
+				for _, a := range x.Call.Args {
+					walk(a, d+1)
+				}
+			}
+		}
+		walk(cond, 0)
+		return found
+	}
+	perFn := map[*ssa.Function]int{}
+	for _, fn := range w.Funcs("parser") {
+		for _, b := range fn.Blocks {
+			if len(b.Instrs) == 0 {
+				continue
+			}
+			ifi, ok := b.Instrs[len(b.Instrs)-1].(*ssa.If)
+			if !ok {
+				continue
+			}
+			bo, ok := ifi.Cond.(*ssa.BinOp)
+			if !ok || (bo.Op != token.EQL && bo.Op != token.NEQ) {
+				continue
+			}
+			if n, ok := w.tokenTypeConst(bo.Y, lf); !ok || n != "NEWLINE" {
+				continue
+			}
+			tv := bo.X
+			if _, ok := typeCallToken(w, tv); !ok {
+				continue
+			}
+			notNL := b.Succs[1]
+			if bo.Op == token.NEQ {
+				notNL = b.Succs[0]
+			}
+			// follow the other side up to the next decision
+			verdict := ""
+			seen := map[*ssa.BasicBlock]bool{}
+			var walk func(blk *ssa.BasicBlock, depth int)
+			walk = func(blk *ssa.BasicBlock, depth int) {
+				if seen[blk] || depth > 6 || verdict != "" {
+					return
+				}
+				seen[blk] = true
+				for _, ins := range blk.Instrs {
+					switch x := ins.(type) {
+					case *ssa.Call:
+						callee := x.Call.StaticCallee()
+						if callee != nil && pkgOf(callee) == w.Pkgs["parser"].Types && callee.Name() != "peek" && (callee.Name() == "eat" || consumes(callee, 0)) {
+							// consuming the tested token itself is not "parsing on"
+							if callee.Name() == "eat" {
+								continue
+							}
+							verdict = "parses on with " + callee.Name()
+							return
+						}
+					case *ssa.If:
+						if mentions(x.Cond, tv) {
+							verdict = "tested"
+							return
+						}
+					case *ssa.Return:
+						return
+					}
+				}
+				for _, s := range blk.Succs {
+					walk(s, depth+1)
+				}
+			}
+			walk(notNL, 0)
+			// a test of the same token's type made before this one (termination list first)
+			if verdict != "" && verdict != "tested" {
+				for d := b.Idom(); d != nil; d = d.Idom() {
+					if len(d.Instrs) == 0 {
+						continue
+					}
+					if pi, ok := d.Instrs[len(d.Instrs)-1].(*ssa.If); ok && pi != ifi && mentions(pi.Cond, tv) {
+						if pb, ok := pi.Cond.(*ssa.BinOp); ok {
+							if n, ok := w.tokenTypeConst(pb.Y, lf); ok && n == "NEWLINE" {
+								continue
+							}
+						}
+						verdict = "tested"
+						break
+					}
+				}
+			}
+			if verdict == "" {
+				continue // neither parses nor tests: not a terminator decision (skipping blank lines, error exit)
+			}
+			perFn[fn]++
+			key := fmt.Sprintf("eof:%s#%d", FuncName(fn), perFn[fn])
+			pos := w.Pos(tv.Pos())
+			if verdict == "tested" {
+				r.Ok(rule, key, pos, "the token type tested against NEWLINE is tested further before anything is parsed")
+			} else {
+				r.Bad(rule, key, pos, "the look-ahead takes NEWLINE as the end of the construct but "+verdict+" for every other token, including the end of the input: the same program is accepted with a final newline and rejected without it")
+			}
 		}
 	}
 }
